@@ -236,6 +236,14 @@ def countif(cells, crit):
     return {xl.c_num(len(s)) for s in sel}
 
 
+def _pyfloat(v):
+    try:
+        float(v)
+        return True
+    except ValueError:
+        return False
+
+
 def _sum_like(cells, crit, values, average):
     sel = selections(cells, crit)
     if sel is None:
@@ -249,8 +257,9 @@ def _sum_like(cells, crit, values, average):
             v = values[i]
             if tid(v) == 'e':
                 return None
-            if tid(v) == 't' and rs.to_number(v) != rs.VALUE:
+            if tid(v) == 't' and (rs.to_number(v) != rs.VALUE or _pyfloat(v)):
                 return None     # numeric text in a summed reference: C12's finding
+                                # (the sum reads text with float(): "1_0", "inf" too)
             if tid(v) == 'n':
                 nums.append(v)
         if average:
